@@ -285,7 +285,7 @@ def run_program(ls, rng, fc, mask, nzcv):
             kinds_ = sorted({lockstep_categ(l, e, g, ref) for l, e, g in diffs})
             ls.report('C08|step|%s|%s' % (info.get('row'), ','.join(kinds_)[:60]),
                       dict(d2, row=info.get('row'), diffs=[(l, '%#x' % e if isinstance(e, int) else str(e),
-                                                             '%#x' % g if isinstance(g, int) else str(g)) for l, e, g in diffs[:5]]), d2)
+                                                             '%#x' % g if isinstance(g, int) else str(g)) for l, e, g in diffs[:5]]), d2, pre=pre)
             break
         pc = post['PC']
         if kinds[-1] not in ('a16', 'a32', 'ld', 'b', 'svc', 'udf', 'abort', 'hyptrap') and pc >= code + 0x80 and stepno >= n:
@@ -328,7 +328,10 @@ def lockstep_categ(loc, exp, got, ref):
 
 
 def replay(data):
-    return dict(evaluations=0, violations=[])
+    from vf.props import _lock as L
+    if (data.get('replay') or {}).get('snapshot'):
+        return L.replay_rows('C08', data)          # the judged step of a program, from its complete pre-state
+    return dict(evaluations=0, violations=[], not_replayable='this cluster is described in full by the file; it has no executable replay')
 
 
 def finish(agg, tier, seed):
